@@ -47,17 +47,21 @@ def main():
         demo = os.path.join(d, 'demo.py')
         patch = os.path.join(d, 'patch.diff')
         env = dict(os.environ, PYTHONDONTWRITEBYTECODE='1')
-        p = sh([PY, demo, dst], env=env, timeout=600)
-        out['demo_clean_exit'] = p.returncode
+        have_demo = os.path.exists(demo)
+        if have_demo:
+            p = sh([PY, demo, dst], env=env, timeout=600)
+            out['demo_clean_exit'] = p.returncode
         ap = sh(['patch', '-p1', '-s', '-d', dst, '-i', patch])
         out['patch_applies'] = ap.returncode == 0
         if ap.returncode != 0:
             out['patch_output'] = ap.stdout.decode()[-500:]
             print(json.dumps(out, indent=1))
             return 1
-        p = sh([PY, demo, dst], env=env, timeout=600)
-        out['demo_patched_exit'] = p.returncode
-        out['demo_patched_tail'] = p.stdout.decode('utf-8', 'replace')[-400:]
+        if have_demo:
+            p = sh([PY, demo, dst], env=env, timeout=600)
+            out['demo_patched_exit'] = p.returncode
+            out['demo_patched_tail'] = p.stdout.decode(
+                'utf-8', 'replace')[-400:]
         if tests:
             t = sh([PY, '-m', 'pytest', '-q', '-p', 'no:cacheprovider', '-x',
                     '-n', '8'], cwd=dst,
